@@ -3,6 +3,7 @@ package main
 // go/ssa (naive form) -> IVL.
 
 import (
+	"path/filepath"
 	"go/constant"
 	"fmt"
 	"math/big"
@@ -250,10 +251,13 @@ func (t *fnTrans) typeInv(e Expr, typ types.Type) Expr {
 			Implies(Eq(p, IntLit(0)), Eq(c, IntLit(0))),
 			Implies(IGt(c, IntLit(0)), IGe(p, IntLit(4096))))
 	case *types.Pointer, *types.Interface, *types.Signature, *types.Struct:
+		// object ids and heap addresses are below 2^47, but a pointer to an array embedded in a
+		// struct is an address at or above 2^52 and a boxed pointer carries its type id above 2^41:
+		// the only bound that holds of every such value is the id space itself
 		if th.bv {
-			return mk("bvult", SBool, e, BVLit64(1<<47, 64))
+			return mk("bvult", SBool, e, BVLit64(1<<62, 64))
 		}
-		return And(ILe(IntLit(0), e), ILt(e, IntLit(1<<47)))
+		return And(ILe(IntLit(0), e), ILt(e, IntLit(1<<62)))
 	}
 	return nil
 }
@@ -586,6 +590,23 @@ func (f *frame) translateBody(entry *Block) {
 	order := rpo(fn)
 	for _, b := range order {
 		t.cur = f.blocks[b]
+		if f.parent == nil && len(b.Preds) == 1 {
+			if _, isIf := b.Preds[0].Instrs[len(b.Preds[0].Instrs)-1].(*ssa.If); isIf && len(b.Instrs) > 0 {
+				// branch canary: a branch of the function under contract that no state can enter is
+				// either dead code under the contract or a sign of contradictory assumptions; listed
+				// in the evidence so that each one can be explained
+				pos := t.eng.fset.Position(b.Instrs[0].Pos())
+				if !pos.IsValid() {
+					for _, in := range b.Instrs {
+						if in.Pos().IsValid() {
+							pos = t.eng.fset.Position(in.Pos())
+							break
+						}
+					}
+				}
+				t.cur.Cmds = append(t.cur.Cmds, Cmd{Kind: CAssert, E: False, Name: fmt.Sprintf("canary/branch/%s:%d", filepath.Base(pos.Filename), pos.Line), ExpectSat: true, Props: t.fc.Props})
+			}
+		}
 		for _, in := range b.Instrs {
 			f.instr(in)
 		}
